@@ -68,7 +68,9 @@ impl Eq for Kv {}
 impl Hash for Kv {
     fn hash<H: Hasher>(&self, h: &mut H) {
         cb("khash");
-        self.0.hash(h)
+        // values >= 10 all collide: identity hashes of different identity-field values coincide
+        // (structcoll family: the "identity fields differ under the same identity hash" path)
+        if self.0 >= 10 { 10i64.hash(h) } else { self.0.hash(h) }
     }
 }
 
